@@ -31,7 +31,7 @@ func Tier() string {
 	return "quick"
 }
 
-func Seed() int64 {
+func SeedValue() int64 {
 	s, _ := strconv.ParseInt(os.Getenv("VERIF_SEED"), 10, 64)
 	return s
 }
@@ -239,7 +239,7 @@ func (r *Report) Finish() int {
 	ev := map[string]interface{}{
 		"property_id": r.Prop,
 		"tier":        Tier(),
-		"seed":        Seed(),
+		"seed":        SeedValue(),
 		"level":       r.Level,
 		"coverage":    cov,
 		"assumptions": r.Assumptions,
